@@ -512,7 +512,16 @@ class reader( object ):
                 # probably process the same file and get the same error.  Report the file and
                 # timestamp so it can be fixed, if necessary...  If empty file, raise StopIteration
                 try:
-                    n,(ts,sn,js) = parse_record( fd, n=n, encoding=encoding )
+                    while True:
+                        try:
+                            n,(ts,sn,js) = parse_record( fd, n=n, encoding=encoding )
+                            break
+                        except StopIteration:
+                            raise
+                        except Exception as exc:
+                            # Unparsable timestamp/serial; report (None,None) as documented, and carry on
+                            log.warning( "%s Ignoring unparsable record after %s, line %d: %s", self, self.name+f, n, exc )
+                            yield (f,n,cur),(None,None)
                 except StopIteration:
                     break
 
